@@ -6,7 +6,7 @@
 (* on the logged arguments and compares it with the logged result.  A panic   *)
 (* in the code under test is logged with panic = 1, for which no record       *)
 (* predicate holds.                                                           *)
-EXTENDS Isa, WordInit, Sequences, FiniteSets, Json, IOUtils, TLC
+EXTENDS Isa, WordInit, SourceInfo, Sequences, FiniteSets, Json, IOUtils, TLC
 
 Rec == ndJsonDeserialize(IOEnv.TRACE)
 N   == Len(Rec)
@@ -107,8 +107,25 @@ WordOpConf(r) ==
       e == CASE r.op = "add" -> AddW(x, y) [] r.op = "sub" -> SubW(x, y) [] r.op = "and" -> AndW(x, y) [] r.op = "not" -> NotW(x)
   IN r.r = <<e.v, e.m>>
 
+\* C25.  Every query of SourceInfo against the operators of spec/SourceInfo.tla.
+SrcInfoOK(r) ==
+  LET src == r.src  n == CountLines(src) IN
+  /\ r.panic = 0
+  /\ r.same = 1
+  /\ r.lines = n
+  /\ Len(r.spans) = n + 2 /\ Len(r.texts) = n + 2
+  /\ \A ln \in 0..(n + 1) :
+        IF ln < n
+        THEN LET sp == LineSpan(src, ln) IN
+             /\ r.spans[ln + 1] = <<sp.s, sp.e>>
+             /\ r.texts[ln + 1] = <<1, ReadLine(src, ln)>>
+        ELSE r.spans[ln + 1] = <<-1, -1>> /\ r.texts[ln + 1][1] = 0
+  /\ Len(r.pos) = Len(src) + 11
+  /\ \A j \in 1..Len(r.pos) : LET p == PosPair(src, r.pos[j][1]) IN r.pos[j] = <<j - 1, p[1], p[2]>>
+
 RecOK(r) ==
   CASE r.ev = "Decode" -> DecodeOK(r)
+    [] r.ev = "SrcInfo" -> SrcInfoOK(r)
     [] r.ev = "Encode" -> EncodeOK(r)
     [] r.ev = "Disasm" -> DisasmOK(r)
     [] r.ev = "Offset" -> OffsetOK(r)
